@@ -246,12 +246,7 @@ Definition take_frac (s : text) : option (N * text) :=
   end.
 
 (* the offset part  (+|-)HH:MM[:SS[.ffffff]]  up to the end of the text *)
-Definition parse_offset (s : text) : option Z :=
-  dlet (neg, s) := match s with
-                 | 43 :: r => Some (false, r)
-                 | 45 :: r => Some (true, r)
-                 | _ => None
-                 end in
+Definition parse_offset_tail (neg : bool) (s : text) : option Z :=
   dlet (hh, s) := take_num 2 s in
   dlet s := expect 58 s in
   dlet (mm, s) := take_num 2 s in
@@ -264,7 +259,14 @@ Definition parse_offset (s : text) : option Z :=
                   | _ => None
                   end in
   let a := Z.of_N (((hh * 3600 + mm * 60 + ss) * 1000000) + us) in
-  Some (if neg : bool then (- a)%Z else a).
+  Some (if neg then (- a)%Z else a).
+
+Definition parse_offset (s : text) : option Z :=
+  match s with
+  | 43 :: r => parse_offset_tail false r
+  | 45 :: r => parse_offset_tail true r
+  | _ => None
+  end.
 
 (* the inverse of iso_format on the texts iso_format produces (datetime.fromisoformat accepts more) *)
 Definition iso_parse (s : text) : option dtm :=
@@ -462,6 +464,23 @@ Fixpoint pack_value (cast : bool) (v : jval) {struct v} : option json :=
          | Some c => match dispatch c with Some a => apply_action a v | None => None end
          | None => None
          end
+  end.
+
+(* the property's per-type mapping, stated directly (no dispatch): what pack_value yields for the values the
+   field types hold (proofs/Json_proofs.v: pack_value_spec) *)
+Fixpoint json_of_value (cast : bool) (v : jval) {struct v} : json :=
+  match v with
+  | VNone => JNull
+  | VStr s => JStr s
+  | VInt z => JInt z
+  | VBool b => if cast then JBool b else JInt (if b then 1 else 0)%Z
+  | VFloat bits => float_json bits
+  | VDt d => JStr (iso_format d)
+  | VBytes bs => JStr (b64_encode bs)
+  | VDigest a b c => JObj [(T "md5", opt_json a); (T "sha1", opt_json b); (T "sha256", opt_json c)]
+  | VIp t | VNet t | VPath t => JStr t
+  | VList l => JArr (map (json_of_value false) l)
+  | VOpaque j => j
   end.
 
 (* ---- descriptors and records ---- *)
@@ -818,10 +837,12 @@ Fixpoint nodup_text (l : list text) : bool :=
   end.
 
 (* a record over the JSON-supported types as the record constructor builds it: every slot holds a value
-   of its declared type, slot names are distinct and differ from the marker keys *)
+   of its declared type, slot names are distinct and differ from the marker keys, declared field names do
+   not start with an underscore *)
 Definition record_ok (r : record) : bool :=
   slots_ok (uses_defaults (r_desc r)) (all_fields (r_desc r)) (r_vals r)
-  && nodup_text (map snd (all_fields (r_desc r)) ++ [type_key cfg; desc_key cfg]).
+  && nodup_text (map snd (all_fields (r_desc r)) ++ [type_key cfg; desc_key cfg])
+  && forallb (fun f => negb (starts_underscore (snd f))) (d_fields (r_desc r)).   (* is_valid_field_name *)
 
 (* ... and holds no non-finite float (those are written as the non-JSON tokens) *)
 Fixpoint val_finite (v : jval) : bool :=
@@ -839,6 +860,46 @@ Fixpoint val_float_canonical (v : jval) : bool :=
   | VFloat bits => float_finite bits || (float_mant bits =? 0) || (bits =? nonfinite_bits NFNan)
   | VList l => forallb val_float_canonical l
   | _ => true
+  end.
+
+(* ---- observations used by the statements about documents ---- *)
+Definition doc_keys (j : json) : option (list text) := match j with JObj kv => Some (map fst kv) | _ => None end.
+
+Definition is_record_doc (j : json) : bool :=
+  match j with
+  | JObj kv => match lookup (type_key cfg) kv with Some (JStr m) => text_eqb m (record_marker cfg) | _ => false end
+  | _ => false
+  end.
+
+Definition is_descriptor_doc (j : json) : bool :=
+  match j with
+  | JObj kv => match lookup (type_key cfg) kv with Some (JStr m) => text_eqb m (descriptor_marker cfg) | _ => false end
+  | _ => false
+  end.
+
+Definition slot_names (r : record) : list text := map snd (all_fields (r_desc r)).
+
+(* the JSON scalar a value of a fallback record stands for *)
+Definition scalar_json_of (v : jval) : option json :=
+  match v with
+  | VNone => Some JNull
+  | VStr s => Some (JStr s)
+  | VInt z => Some (JInt z)
+  | VBool b => Some (JBool b)
+  | VFloat bits => Some (float_json bits)
+  | _ => None
+  end.
+
+(* (field name, type name, the JSON scalar its value stands for) of the declared fields of a record *)
+Definition scalar_view_record (p : record) : list (text * text * option json) :=
+  map (fun fv => (snd (fst fv), fst (fst fv), scalar_json_of (snd fv))) (combine (d_fields (r_desc p)) (r_vals p)).
+
+(* the same for the members of a document whose key does not start with "_" *)
+Definition scalar_view_doc (doc : json) : list (text * text * option json) :=
+  match doc with
+  | JObj kv => map (fun p => (fst p, fieldtype_for_value (snd p), if is_scalar (snd p) then Some (snd p) else None))
+                   (filter (fun p => negb (starts_underscore (fst p))) kv)
+  | _ => []
   end.
 
 End WithCfg.
@@ -861,4 +922,17 @@ Definition cfg_ok (c : jcfg) : bool :=
   && reader_registers c && reader_removes_markers c
   && negb (text_eqb (record_marker c) (descriptor_marker c))
   && negb (text_eqb (type_key c) (desc_key c))
-  && negb (text_eqb (type_key c) (data_key c)).
+  && negb (text_eqb (type_key c) (data_key c))
+  (* the fallback for plain documents *)
+  && text_eqb (ftv_default c) (T "string")
+  && opt_text_eqb (ftv_first (ftv_branches c) [T "str"]) (Some (T "string"))
+  && opt_text_eqb (ftv_first (ftv_branches c) [T "float"]) (Some (T "float"))
+  && opt_text_eqb (ftv_first (ftv_branches c) [T "bool"; T "int"]) (Some (T "boolean"))
+  && opt_text_eqb (ftv_first (ftv_branches c) [T "int"]) (Some (T "varint"))
+  && (match type_shape c (T "string") with Some (KStr, false) => true | _ => false end)
+  && (match type_shape c (T "float") with Some (KFloat, false) => true | _ => false end)
+  && (match type_shape c (T "boolean") with Some (KBool, false) => true | _ => false end)
+  && (match type_shape c (T "varint") with Some (KInt, false) => true | _ => false end)
+  && forallb (fun f => starts_underscore (snd f)) (reserved c)
+  && starts_underscore (version_key c) && starts_underscore (generated_key c)
+  && forallb (fun f => match type_shape c (fst f) with Some (KDigest, _) => false | Some (_, false) => true | _ => false end) (reserved c).
